@@ -265,6 +265,8 @@ def run_impl(wd, case, refmode, perturb=None):
 
 
 # ------------------------------------------------------------------------------------------ case generation
+SKIP_RELATIONS = ["variant_directly_after_skip", "first_base_is_last_skipped", "variant_directly_before_skip",
+                  "last_base_is_first_skipped", "inside_skip"]
 KINDS = ["snv", "snv", "snv", "ins", "ins", "del", "del", "mnp", "insR", "delR", "cpx"]
 
 
@@ -389,6 +391,46 @@ def gen_case(rng, small=False):
                 c0 = max(c0, lo)
                 c1 = max(c1, min(len(cols), c0 + 8))
             skip = None
+            if listed and lo is None and rng.random() < 0.2:
+                # systematic reference skips next to a listed variant (any kind, carried or not): the variant directly
+                # after the skip, its first base (anchor) the last skipped base, directly before the skip, its last base
+                # the first skipped base, or inside -- with 0 / 1 / 2 other listed variants inside the skipped region
+                v = rng.choice(listed)
+                rel = rng.choice(SKIP_RELATIONS)
+                want = rng.choice([0, 0, 1, 2])
+                best = None
+                for n in rng.sample(range(1, 45), 44):
+                    if rel == "variant_directly_after_skip":
+                        sk = (v[0] - n, v[0])
+                    elif rel == "first_base_is_last_skipped":
+                        sk = (v[0] + 1 - n, v[0] + 1)
+                    elif rel == "variant_directly_before_skip":
+                        sk = (v[0] + len(v[1]), v[0] + len(v[1]) + n)
+                    elif rel == "last_base_is_first_skipped":
+                        sk = (v[0] + len(v[1]) - 1, v[0] + len(v[1]) - 1 + n)
+                    else:
+                        off = rng.randint(0, n)
+                        sk = (v[0] - off, v[0] - off + n + len(v[1]))
+                    if sk[0] < 2 or sk[1] > L - 3:
+                        continue
+                    inside = sum(1 for w in listed if w is not v and sk[0] <= w[0] < sk[1])
+                    if best is None or abs(inside - want) < abs(best[1] - want):
+                        best = (sk, inside)
+                    if inside == want:
+                        break
+                if best is not None:
+                    sk = best[0]
+                    i0 = [i for i, c in enumerate(cols) if c[1] < sk[0]]
+                    i1 = [i for i, c in enumerate(cols) if c[1] >= sk[1] and c[0] != "I"]
+                    if i0 and i1:
+                        c0 = max(0, i0[-1] - rng.randint(2, 40))
+                        c1 = min(len(cols), i1[0] + rng.randint(2, 40))
+                        soft = (rng.choice([0, 0, 2, 7]), rng.choice([0, 0, 3, 9]))
+                        hard = (rng.choice([0, 0, 4]), rng.choice([0, 0, 5]))
+                        al = G.make_alignment(rng, cols, c0, c1, style=style, skip=sk, soft=soft, hard=hard,
+                                              split_prob=split_prob, trim=False, ins_after_skip=rng.random() < 0.5)
+                        if al is not None:
+                            return al
             tagged = [t for t in {c[3] for c in cols} if t is not None and any(c[3] == t and c[0] in "ID" for c in cols)]
             if tagged and lo is None and rng.random() < 0.25:
                 # the own insertion / deletion operation of a carried listed variant is the LAST (or first) operation of
@@ -912,6 +954,15 @@ def tally_dimensions(ctx, case):
                 t("variant.snv_or_mnp_inside_deletion_op")
             if any(x <= p < y for x, y in skips):
                 t("variant.inside_reference_skip")
+            for x, y in skips:
+                rel = ("variant_directly_after_skip" if p == y else "first_base_is_last_skipped" if p == y - 1 else
+                       "variant_directly_before_skip" if e == x - 1 else "last_base_is_first_skipped" if e == x and p < x else
+                       "inside_skip" if x <= p and e < y else None)
+                if rel:
+                    others = sum(1 for w in case["listed"] if w is not v and x <= w[0] < y)
+                    before = sum(1 for w in case["listed"] if w is not v and first <= w[0] < x)
+                    t(f"skip.{kind}.{rel}.others_inside_{min(others, 2)}")
+                    t(f"skip.{rel}.listed_before_skip_{min(before, 2)}.inside_{min(others, 2)}")
             if any(abs(x - p) <= 1 or abs(y - 1 - e) <= 1 or abs(y - p) <= 1 or abs(x - 1 - e) <= 1 for x, y in skips):
                 t("variant.next_to_reference_skip")
             if any(abs(x - p) <= 1 for x in inss) and G.kind_of(v) != "ins":
